@@ -255,6 +255,23 @@ def run(ctx):
     nrand = len(jobs)
     for std in ("f2003", "f2008"):
         jobs += systematic_jobs(ctx.seed, std, ctx.n(4, 30))
+    # entities named like keywords (no reserved words in Fortran) and a catalogue of less usual statement forms,
+    # intact and with every systematic corruption of their first line
+    import catalogue
+    import kwnames
+    nsys = len(jobs) - nrand
+    for k, src in enumerate(kwnames.exhaustive(ctx.seed) + kwnames.sources(rng, ctx.n(500, 40000))):
+        jobs.append((("f2003", "f2008")[k % 2], src, k % 3 == 0))
+    cat = catalogue.BODIES if not ctx.quick else catalogue.BODIES[ctx.seed % 2::2]
+    for k, b in enumerate(cat):
+        std = ("f2003", "f2008")[k % 2]
+        w = catalogue.WRAPS[k % len(catalogue.WRAPS)]
+        jobs.append((std, w % b, False))
+        first, _, rest = b.partition("\n")
+        for v in range(NCORRUPT):
+            c = corrupt_statement(first, v)
+            if c is not None and c != first:
+                jobs.append((std, w % (c + ("\n" + rest if rest else "")), False))
     res = pool.pmap(run_one, jobs, chunksize=20)
     failures = []
     hist = {}
@@ -286,8 +303,9 @@ def run(ctx):
             failures.append((r[1], "file with inserted bytes: " + r[1], dict(bytes_hex=job[0].hex(), std=job[1])))
     e2e = dict(cases=len(jobs) + len(fjobs), distinct=len(set(j[1] for j in jobs)), failures=failures,
                outcome_histogram=hist,
-               systematic_corruptions=len(jobs) - nrand,
-               rule="EVERY statement of generated programs x 12 systematic corruptions (last ')' / first '(' / first '=' "
+               systematic_corruptions=nsys, keyword_name_and_catalogue_cases=len(jobs) - nrand - nsys,
+               rule="statements whose entity names coincide with keywords (84 templates x 140 keywords, sampled) and a catalogue "
+                    "of ~300 less usual statement forms, intact and corrupted; EVERY statement of generated programs x 12 systematic corruptions (last ')' / first '(' / first '=' "
                     "deleted, truncated, last or first token lost, stray or doubled comma, doubled operator character, keyword= "
                     "without value, empty list item); 1-3 token/character/line mutations (delete, duplicate, swap, replace by punctuation/keywords, "
                     "insert a character) of generated programs and unstructured text over the Fortran character "
